@@ -422,6 +422,16 @@ func (r *Reconciler) reconcileAbort(ctx context.Context, proposal *configapi.Pro
 				return controller.Result{}, err
 			}
 			return controller.Result{}, nil
+		} else if config.Status.Committed.Index >= proposal.TransactionIndex &&
+			config.Status.Applied.Index >= proposal.TransactionIndex {
+			// Both indexes are already past this proposal: the configuration was updated by an earlier
+			// attempt that stopped before the proposal could be marked ABORTED. Complete the abort.
+			proposal.Status.Phases.Abort.End = getCurrentTimestamp()
+			proposal.Status.Phases.Abort.State = configapi.ProposalAbortPhase_ABORTED
+			if err := r.updateProposalStatus(ctx, proposal); err != nil {
+				return controller.Result{}, err
+			}
+			return controller.Result{}, nil
 		}
 
 	}
